@@ -33,6 +33,14 @@ GROUPS = {
             ("text_plain", ["text_plain.api_agree", "text_plain.api_view_independent"]), ("text_arith", ["text_arith.api_view_independent"]), ("text_union", ["text_union.api_view_independent"]),
             ("cmp_struct", ["eq.structural", "lt.order"])],
 }
+# groups that only the thorough tier runs (through-the-parser rendering of the whole end-to-end menu: 2 min single-threaded)
+THOROUGH_GROUPS = {
+    "C01": [("text_e2e", ["text_e2e.members", "text_e2e.api_agree"])],
+    "C02": [("text_e2e", ["text_e2e.order", "text_e2e.members"])],
+    "C05": [("text_e2e", ["text_e2e.members"])],
+    "C12": [("text_e2e", ["text_e2e.api_agree"])],
+    "C15": [("text_e2e", ["text_e2e.api_view_independent"])],
+}
 # Verus unit -> bounded groups that can produce a failing input for it
 CEX_GROUPS = {
     "process_index": ["arith"], "process_slice": ["arith"], "validate_range": ["text_arith"],
@@ -168,7 +176,7 @@ def run_for(run):
     if not spec:
         return
     # every property whose proof uses the assumed std-shape contracts also runs their bounded sanity check
-    spec = list(spec) + [("helpers", ["helpers."])]
+    spec = list(spec) + (THOROUGH_GROUPS.get(run.prop, []) if run.tier == "thorough" else []) + [("helpers", ["helpers."])]
     res = run_groups(run, [g for g, _ in spec])
     if res is None:
         return
